@@ -132,6 +132,14 @@ def mkDensityX (fl : Rat → Rat) (N : Nat) (directed : Bool) (S0 : XSim) (damp 
     (k : Nat) : Option XNet :=
   (xblank fl N directed S0 damp nl).setLinkDensity fl k
 
+/-- l.485 as executed: every operation of `0.5 * (np.tanh(a * (d - d_min)) + 1)` rounded by the
+arithmetic `fl` of the arrays, `th` = the numerical `tanh` -/
+def dampOfFl (fl th : Rat → Rat) (a dmin d : Rat) : Rat :=
+  fl ((1 / 2) * fl (th (fl (a * fl (d - dmin))) + 1))
+
+def dampMatFl (fl th : Rat → Rat) (a dmin : Rat) (dist : Sim) : Sim :=
+  fun i j => dampOfFl fl th a dmin (dist i j)
+
 /-- the exact model as a special case: no NaN -/
 def embedSim (S : Sim) : XSim := fun i j => some (S i j)
 
